@@ -314,7 +314,8 @@ def multitrack_source(rng, malformed=False):
             parts.insert(rng.randrange(0, len(parts) + 1), rng.choice(["/**/", "/* x */", "/** doc */", "// c\n", "/***/", "/**/ /**/", "/* TimeBase(77) */"]))
     if rng.random() < 0.15: parts.insert(0, rng.choice(["/**/", "/**/", "/***/", "/* */", "/**/ /**/"]))      # … the first thing of all
     if malformed:
-        junk = ["!", "ZZZ", "}", "]", "'", "[", "{", "(", "\u3042", "\x00", "$", "~{x}", "Sub{", "#?1", "TR(", "v", "@", "y", ",,,", "^^"]
+        junk = ["!", "ZZZ", "}", "]", "'", "[", "{", "(", "\u3042", "\x00", "$", "~{x}", "Sub{", "#?1", "TR(", "v", "@", "y", ",,,", "^^",
+                "FUNCTION F{c}", "FUNCTION FA){c}", "FUNCTION Foo", "INT A=1", "STR Mel={d} Mel", "#M={e}", "FOR(INT I=0;I<2;I++){c}", "Sub{ FUNCTION G(){d} G() }"]      # (broken definitions followed by anything that writes a variable)
         for _ in range(rng.randrange(1, 4)):
             parts.insert(rng.randrange(1, len(parts) + 1), rng.choice(junk))
     src = rng.choice([" ", "\n"]).join(parts)
